@@ -483,3 +483,179 @@ def ob_f(ob):
                 ob.verdict(v, lab)
     a, b = z3.Reals("a b")
     expect_refuted(ob, a == b, [], "twin: another trajectory's slope is not this trajectory's", "nra")
+
+
+def replay_rk4_norm():
+    """float64, real _propagate_electronic: random antisymmetric couplings, energies and amplitudes; the population norm
+    after one nuclear step must stay within the integrator's error (here < 1e-8 for dt = 0.05 fs, 8 sub-steps)"""
+    dyn, ND = _dyn()
+    g = torch.Generator().manual_seed(7)
+    n = 4
+    A = torch.rand(1, n, n, generator=g, dtype=torch.float64) - 0.5
+    D0, D1 = A - A.transpose(1, 2), (A - A.transpose(1, 2)) * 1.1
+    amp = torch.zeros(1, n, 3, dtype=torch.float64)
+    amp[0, :, 0] = torch.tensor([0.6, 0.5, 0.4, 0.3])
+    amp[0, :, 1] = torch.tensor([0.1, -0.2, 0.3, 0.05])
+    amp[..., :2] /= torch.sqrt((amp[..., :2] ** 2).sum())
+    amp[0, :, 2] = torch.tensor([0.3, -1.0, 2.0, 0.7])
+    dyn._amp_phase, dyn._nstates, dyn.timestep = amp.clone(), n, 0.05
+    e0 = torch.tensor([[0.0, 1.0, 2.5, 3.0]], dtype=torch.float64)
+    dyn._propagate_electronic({"energies": e0, "nac_dot": D0}, {"energies": e0 + 0.05, "nac_dot": D1}, substeps=8)
+    norm = (dyn._amp_phase[..., :2] ** 2).sum().item()
+    H = dyn._hop_integral[0]
+    print("replay RK4 propagation: |norm - 1| = %.3e, max |hop integral + its transpose| = %.3e" % (abs(norm - 1), (H + H.T).abs().max().item()))
+    return abs(norm - 1) > 1e-8 or (H + H.T).abs().max().item() > 1e-12
+
+
+@obligation(PID, "c", title="amplitude propagation: for every antisymmetric coupling matrix, state energies, amplitudes and phases the population norm is stationary to first order in the time step through the real RK4 step (the generator conserves the norm; higher orders are the integrator's), and the hop integral is the antisymmetric 2 dt Re(c_i* c_j) D_ij with zero diagonal")
+def ob_c(ob):
+    import seqm.NonadiabaticDynamics as ND
+
+    ob.encodes(ND.NonadiabaticDynamicsBase._propagate_electronic)
+    ob.bound("1 trajectory x 3 states, one RK4 sub-step; amplitudes (x, y), phases, energies at both ends and both coupling matrices symbolic; the time step is a dual number at dt = 0 (exact first derivative through the real code); sin/cos uninterpreted with s^2 + c^2 = 1")
+    ob.assume("first order only: the O(dt^5) local error of RK4 is the integrator's accuracy order, which the property allows")
+    S.reset()
+    S.ST.dual_n = 1
+    try:
+        n = 3
+        dyn, _ = _dyn()
+        dyn._nstates = n
+        X = S.reals("x", (1, n))
+        Y = S.reals("y", (1, n))
+        TH = S.reals("th", (1, n))
+        amp = np.empty((1, n, 3), dtype=object)
+        amp[..., 0], amp[..., 1], amp[..., 2] = X, Y, TH
+        dyn._amp_phase = SymTensor(amp)
+        dyn.timestep = SymTensor(np.array(Dual(z3.RealVal(0), (z3.RealVal(1),)), dtype=object))
+
+        def antisym(name):
+            d = np.full((1, n, n), z3.RealVal(0), dtype=object)
+            for i in range(n):
+                for j in range(i + 1, n):
+                    d[0, i, j] = z3.Real("%s_%d_%d" % (name, i, j))
+                    d[0, j, i] = -d[0, i, j]
+            return d
+
+        D0, D1 = antisym("d0"), antisym("d1")
+        E0, E1 = S.reals("e0", (1, n)), S.reals("e1", (1, n))
+        with symbolic_factories():
+            dyn._propagate_electronic({"energies": SymTensor(E0.copy()), "nac_dot": SymTensor(D0.copy())}, {"energies": SymTensor(E1.copy()), "nac_dot": SymTensor(D1.copy())}, substeps=1)
+        out = dyn._amp_phase.a
+        H = dyn._hop_integral.a
+    finally:
+        S.ST.dual_n = 0
+    side = list(S.ST.side)
+    tan = lambda e: e.t[0] if isinstance(e, Dual) else z3.RealVal(0)
+    valv = lambda e: e.v if isinstance(e, Dual) else e
+    dnorm = sum(2 * (valv(out[0, k, 0]) * tan(out[0, k, 0]) + valv(out[0, k, 1]) * tan(out[0, k, 1])) for k in range(n))
+    claims = [("d(norm)/dt = 0 at dt = 0", dnorm == 0)]
+    claims += [("amplitude %d unchanged at dt = 0" % k, z3.And(valv(out[0, k, 0]) == X[0, k], valv(out[0, k, 1]) == Y[0, k])) for k in range(n)]
+    for i in range(n):
+        claims.append(("hop integral diagonal %d" % i, z3.And(valv(H[0, i, i]) == 0, tan(H[0, i, i]) == 0)))
+        for j in range(i + 1, n):
+            claims.append(("hop integral antisymmetric (%d,%d)" % (i, j), tan(H[0, i, j]) + tan(H[0, j, i]) == 0))
+    for name, c in claims:
+        lab = "c:" + name
+        v, m = smt.prove(c, side, lab, "nra", 120)
+        if v == "sat":
+            if replay_rk4_norm():
+                ob.violation("amplitude propagation does not conserve the population norm to first order in dt for an antisymmetric coupling (%s)" % name, {"module": "harness.C17", "func": "replay_rk4_norm", "args": {}})
+                return
+            raise HarnessError("RK4 generator counterexample did not reproduce (%s)" % lab)
+        ob.verdict(v, lab)
+    a, b = z3.Reals("a b")
+    expect_refuted(ob, a * b - b * a + a * a == 0, [a != 0], "twin: a symmetric part of the coupling changes the norm", "nra")
+
+
+def replay_attempt_hop(active, Hrow, pop, r):
+    """float64, real _attempt_hop for one trajectory: hop integral row, population of the active state and the random draw
+    given; compares the selected target with the fewest-switches rule"""
+    dyn, ND = _dyn()
+    n = len(Hrow)
+    H = torch.zeros(1, n, n, dtype=torch.float64)
+    H[0, active] = torch.tensor(Hrow, dtype=torch.float64)
+    amp = torch.zeros(1, n, 3, dtype=torch.float64)
+    amp[0, active, 0] = pop**0.5
+    dyn._amp_phase, dyn._hop_integral, dyn._active_states, dyn._nstates = amp, H, torch.tensor([active]), n
+    saved = torch.rand
+    torch.rand = lambda *a, **k: torch.tensor([r], dtype=torch.float64)
+    try:
+        got = int(dyn._attempt_hop()[0])
+    finally:
+        torch.rand = saved
+    g = [max(0.0, h / max(pop, 1e-10)) for h in Hrow]
+    s = sum(g)
+    if s > 1:
+        g = [x / s for x in g]
+    want, c = -1, 0.0
+    for j, x in enumerate(g):
+        c += x
+        if c >= r:
+            want = j
+            break
+    print("replay _attempt_hop: active %d, probabilities %s, draw %.6f -> target %d, fewest-switches rule %d" % (active, [round(x, 6) for x in g], r, got, want))
+    return got != want
+
+
+@obligation(PID, "g", title="hop selection: the probabilities used are g_j = max(0, H_ij / a_ii) rescaled to sum 1 when they exceed it (so each lies in [0,1] and the row sum is at most one), and the target is the first state whose cumulative probability reaches the random draw, per trajectory — for arbitrary hop integrals, populations and draws")
+def ob_g(ob):
+    import seqm.NonadiabaticDynamics as ND
+
+    ob.encodes(ND.SurfaceHoppingDynamics._attempt_hop)
+    ob.bound("2 trajectories x 3 states with different active states; hop integrals, amplitudes and the two random draws in (0,1) symbolic reals; path forking over the selection")
+    n, nmol = 3, 2
+    active = [1, 2]
+    H = S.reals("h", (nmol, n, n))
+    X, Y = S.reals("x", (nmol, n)), S.reals("y", (nmol, n))
+    R = [z3.Real("r_%d" % b) for b in range(nmol)]
+    assm = [z3.And(r > 0, r < 1) for r in R]
+    amp = np.empty((nmol, n, 3), dtype=object)
+    amp[..., 0], amp[..., 1], amp[..., 2] = X, Y, z3.RealVal(0)
+    saved = torch.rand
+    torch.rand = lambda *a, **k: SymTensor(np.array(R, dtype=object))
+
+    def fn():
+        dyn, _ = _dyn()
+        dyn._amp_phase, dyn._hop_integral, dyn._active_states, dyn._nstates = SymTensor(amp.copy()), SymTensor(H.copy()), torch.tensor(active), n
+        with symbolic_factories(bool_symbolic=True):
+            t = dyn._attempt_hop()
+        return t.a.copy() if isinstance(t, SymTensor) else S.to_obj(t)
+
+    try:
+        ex = Explorer(assumptions=assm, piecewise="ite", kind="nra", max_paths=60)
+        res = ex.run(fn)
+    finally:
+        torch.rand = saved
+    ob.paths += ex.paths
+    ob.require(len(res) >= 1, "no feasible path through _attempt_hop")
+    mx = lambda a, b: z3.If(a >= b, a, b)
+    for pc, side, T in res:
+        base = assm + list(pc) + list(side)
+        for b in range(nmol):
+            i = active[b]
+            pop = X[b, i] * X[b, i] + Y[b, i] * Y[b, i]
+            den = mx(pop, S.rv(1e-10))
+            g = [mx(z3.RealVal(0), H[b, i, j] / den) for j in range(n)]
+            s = sum(g)
+            g2 = [z3.If(s > 1, gj / mx(s, S.rv(1e-12)), gj) for gj in g]
+            cum = [sum(g2[: j + 1]) for j in range(n)]
+            want = z3.RealVal(-1)
+            for j in reversed(range(n)):
+                want = z3.If(cum[j] >= R[b], z3.RealVal(j), want)
+            t = T.reshape(-1)[b]
+            t = z3.ToReal(t) if z3.is_int(t) else t
+            lab = "g:trajectory %d target follows the fewest-switches rule" % b
+            v, m = smt.prove(t == want, base, lab, "nra", 120)
+            if v == "sat":
+                ev = lambda e: float(smt.model_value(m, e))
+                args = dict(active=i, Hrow=[ev(H[b, i, j]) for j in range(n)], pop=max(ev(pop), 0.0), r=ev(R[b]))
+                if replay_attempt_hop(**args):
+                    ob.violation("_attempt_hop selects a target that the fewest-switches probabilities do not give (trajectory %d of a batch with active states %s)" % (b, active), {"module": "harness.C17", "func": "replay_attempt_hop", "args": args})
+                    return
+                raise HarnessError("hop-selection counterexample did not reproduce (%s): %s" % (lab, args))
+            ob.verdict(v, lab)
+            # consequences stated by the property: probabilities in [0,1], row sum <= 1
+            v2, _ = smt.prove(z3.And(*[z3.And(gj >= 0, gj <= 1) for gj in g2] + [sum(g2) <= 1]), assm, "g:probabilities in [0,1], row sum <= 1", "nra", 60)
+            ob.verdict(v2, "g:probabilities in [0,1], row sum <= 1 (trajectory %d)" % b)
+    a_, b_ = z3.Reals("a b")
+    expect_refuted(ob, a_ + b_ <= 1, [a_ >= 0, b_ >= 0, a_ <= 1, b_ <= 1], "twin: unnormalised probabilities can exceed a row sum of one", "lra")
